@@ -12,6 +12,12 @@ entry_extend(
         "choose_backend: isinstance(x, spla.LinearOperator) / issparse(x) decide the representation kind; A is square "
         "(A.shape[0] == n); python true division of positive ints is exact real division (float rounding of d**2/k at "
         "the threshold is not modelled)",
+        "fdx eigs_scipy / eig_numpy / eigensystem_autoblocked: scipy eigsh / eigs, the four numpy.linalg routines and the "
+        "two numba kernels are recording stand-ins returning a fixed unsorted spectrum with marked vector columns; the "
+        "wrappers do not branch on the numerical values (sorting is delegated to np.argsort / np.sort / ndarray.sort)",
+        "fdx projection: token matrices implement @, .T, .conj(), .H by the laws (XY)^T = Y^T X^T, conj(XY) = conj X conj Y, "
+        "X^H = conj(X)^T; two words are equal iff the identity holds for all complex matrices (free *-algebra); qu.dag is the "
+        "REAL quimb.core.dag; the solver leaf is a recording stand-in; slepc backends not covered (slepc4py absent)",
         "fdx providers: the numerical leaves (the six eigs_* / five svds_* backends, eig_numpy, eigensystem_partial below "
         "the aliases, scipy expm / sqrtm, eigh inside expm / sqrtm) are replaced by recording stand-ins while the REAL "
         "dispatcher runs; the dispatchers treat the operator, k, ncv, tol, v0 and extra options as opaque pass-through "
@@ -37,4 +43,12 @@ entry_extend(
                 "eigvecsh, groundstate, groundenergy, bound_spectrum); norm type table, norm_2, svds dispatch, expm / "
                 "sqrtm routes. AST frame: sqrtm(herm=True) takes the root of COMPLEX eigenvalues; _eigh_autoblocked "
                 "allocates eigenvectors with A's dtype, scatters values and vectors of a block with the block's own "
-                "index list and sorts both with one permutation.")
+                "index list and sorts both with one permutation; _eigvalsh_autoblocked likewise for values. Further fdx: "
+                "eigs_scipy's which/sigma translation for shift-invert mode (nearest-target rules and the sigma default "
+                "become 'LM' with sigma forwarded, every other rule unchanged), eigsh/eigs by the hermitian flag, values "
+                "and vectors sorted by one permutation; eig_numpy's (return_vecs, isherm) -> numpy routine table, "
+                "routing, paired sorting and autoblock flag threading; eigensystem_autoblocked's flag dispatch. Subspace "
+                "projection P= of eigs_scipy / eigs_lobpcg / eigs_numpy: the real functions run on matrices known only as "
+                "words of the free *-algebra (P^H, P^T, conj P, P are four different words): the solver receives exactly "
+                "P^H A P, vectors come back as P @ v paired with their values, lobpcg's initial block is P^H v0 "
+                "(obligation `fdx-projection-compresses-as-Pdag.A.P-and-maps-vectors-back-by-P`).")
